@@ -74,7 +74,7 @@ theorem queryNodeSubnet_quiet (s : State) (node : String) :
       · exact ⟨api_quiet s, rfl⟩
       · split
         · exact ⟨api_quiet s, rfl⟩
-        · exact ⟨⟨⟨rfl, rfl, rfl, rfl, rfl, rfl, rfl, rfl, rfl, rfl, rfl, rfl, rfl, rfl, api_calls_le s⟩, rfl, rfl, rfl⟩, rfl⟩
+        · exact ⟨⟨⟨rfl, rfl, rfl, rfl, rfl, rfl, rfl, rfl, rfl, rfl, rfl, rfl, rfl, rfl, api_calls_le s, rfl⟩, rfl, rfl, rfl⟩, rfl⟩
 
 theorem allocateInSubnet_plog (s : State) (key : Key) (n : Subnet) (a : Attr) (ch : Option IP) :
     (allocateInSubnet s key n a ch).1.plog = s.plog := by
@@ -288,10 +288,11 @@ theorem bindLoop_found (k : Key) (node : String) (a : Attr) (found : List IP) : 
 /-! ### the binding is written to the API server -/
 
 theorem Inv.step_of_touched {s s' : State} {K : Key} {u : Uid} (h : Inv s) (hc : Coherent s') (t : Touched K u s s')
-    (hu : ∀ q, LiveBound s.pods q → keyOf q = K → q.uid = u) : Inv s' := by
+    (hu : ∀ q, LiveBound s.pods q → keyOf q = K → q.uid = u) (hna : K.isAdmin = false := by exact keyOf_not_admin _) :
+    Inv s' := by
   have f := t.frame
   refine ⟨hc, ?_, ?_, ?_, ?_, ?_, ?_, ?_, by rw [f.pods]; exact h.podsNodup, by rw [f.vPods]; exact h.vPodsNodup⟩
-  · rw [f.pods]; exact h.safe.touched t hu
+  · rw [f.pods]; exact h.safe.touched t hu hna
   · rw [f.pods, f.nextUid]; exact h.podsWF
   · rw [f.pods]; exact h.uidUniq
   · rw [f.pods, f.vPods, f.nextUid]; exact h.lister
@@ -322,7 +323,7 @@ theorem inv_setPodBound (s : State) (id : String × String) (p : Pod) (node : St
     · rw [Tbl.get_set_ne _ _ e1] at hq; exact Or.inr ⟨fun x => e1 x.symm, hq⟩
   refine ⟨coherent_of_eq h.coh rfl rfl rfl rfl, ?_, ?_, ?_, ?_, ?_, ?_, h.uidPos, Tbl.nodup_keys_set _ _ h.podsNodup,
     h.vPodsNodup⟩
-  · refine ⟨fun q hq hd hm => ?_⟩
+  · refine ⟨fun q hq hd hm => ?_, h.safe.admin⟩
     rcases hlb q hq with ⟨_, hq'⟩ | e
     · exact h.safe.own q hq' hd hm
     · subst e; exact hown hd hm
@@ -494,13 +495,17 @@ theorem bind_spec (s : State) (ns name : String) (uid : Nat) (node : String) (ch
             · -- the allocation failed (or the process died in it): memory untouched, store changed at free addresses only
               have f := tA.frame
               refine ⟨⟨by rw [f.pods, f.nextUid]; exact h.podsWF, by rw [f.pods]; exact h.uidUniq,
-                by rw [f.nextUid]; exact h.uidPos, by rw [f.pods]; exact h.podsNodup, ?_⟩, fun hcm => ?_,
+                by rw [f.nextUid]; exact h.uidPos, by rw [f.pods]; exact h.podsNodup, ?_, ?_⟩, fun hcm => ?_,
                 UnassignsWithin.of_plog_eq _ sp.plog⟩
               · intro q hq hd hm
                 rw [f.pods] at hq
                 obtain ⟨r, g1, g2, g3⟩ := h.safe.own q hq hd hm
                 exact ⟨r, by rw [sp.persist hd.ip r g1, h.coh.agree]; exact g1, g2, g3,
                   by rw [f.pools]; exact h.coh.allocConf _ r g1⟩
+              · intro ip r hr
+                rw [f.admin] at hr
+                obtain ⟨g1, g2⟩ := h.safe.admin ip r hr
+                exact ⟨by rw [sp.persist ip r g1, h.coh.agree]; exact g1, g2⟩
               · exact h.step_of_touched (sp.coherent (Or.inl hcm)) tA huid
             · rename_i hok
               have hcA := sp.coherent (Or.inr hok)
